@@ -92,18 +92,8 @@ impl Bus {
 
     /// Writes a word to memory in little endian byte order
     pub fn write_word(&mut self, address: u16, data: u16) {
-        if address as usize >= self.address_space.len() {
-            return;
-        }
-        // if rom space is declared, and write operation is requested in rom area : we exit
-        if self.rom_space.is_some()
-            && address >= self.rom_space.as_ref().unwrap().start
-            && address <= self.rom_space.as_ref().unwrap().end
-        {
-            return;
-        };
-        self.address_space[usize::from(address)] = (data & 0xFF) as u8;
-        self.address_space[usize::from(address + 1)] = (data >> 8) as u8;
+        self.write_byte(address, (data & 0xFF) as u8);
+        self.write_byte(address.wrapping_add(1), (data >> 8) as u8);
     }
 
     /// Loads binary data from disk into memory at $0000 + offset. Returns size of loaded file.
